@@ -126,6 +126,15 @@ def run_check(check, tier, seed, replay=None):
             rec_results.append(rr)
             if rr["rc"] not in (0,):
                 log("  recorder %s exited with %s: %s" % (rec.label, rr["rc"], rr["stderr"][-500:]))
+                # The recorder did not finish (sanitizer exit, signal, or it hung and was killed): the trace it was writing
+                # gets a Crash line, for which no trace specification has an action, so the execution is rejected by TLC.
+                files = sorted(glob.glob(os.path.join(outdir, "*.ndjson")), key=os.path.getmtime)
+                if files:
+                    with open(files[-1], "rb") as fh:
+                        tail = fh.read()[-1:]
+                    with open(files[-1], "a") as fh:
+                        fh.write(("" if tail in (b"\n", b"") else "\n") + json.dumps({"e": "Crash", "why": "recorder exit status %s" % rr["rc"]}) + "\n")
+                    rr["crash_marked"] = True
             for tp in sorted(glob.glob(os.path.join(outdir, "*.ndjson"))):
                 traces.append(tp)
                 trace_origin[tp] = rec
@@ -221,7 +230,7 @@ def run_check(check, tier, seed, replay=None):
                 (known_hits if k else violations).append((item, k))
             drifts += [d for d in v["drifts"] if True]
         for rr in rec_results:
-            if rr["rc"] != 0:
+            if rr["rc"] != 0 and not rr.get("crash_marked"):
                 machinery.append("recorder %s failed rc=%s: %s" % (rr["label"], rr["rc"], rr["stderr"][-800:]))
 
         # 6. report
